@@ -113,6 +113,7 @@ func (w *world) put(key, val []byte) {
 }
 
 func (w *world) del(key []byte) {
+	failedFirst := false
 	obs := hx.Safe(func() string {
 		if err := w.tr.Delete(key); err != nil {
 			return "err"
@@ -131,7 +132,7 @@ func (w *world) del(key []byte) {
 		w.o.Count("del:" + obs)
 		if w.lazy {
 			w.errs++
-			w.stale = true
+			failedFirst = !w.stale
 			w.o.Count("lazy:del:" + obs)
 		} else if len(key) <= mpt.MaxKeyLength {
 			w.o.Fail("del-rejected", w.k, "Delete(%x) = %s", key, obs)
@@ -139,6 +140,16 @@ func (w *world) del(key []byte) {
 	}
 	w.o.Line("del "+hx.Hex(key), obs)
 	w.note("d" + hx.Hex(key))
+	if w.lazy && obs != "ok" {
+		if failedFirst {
+			// the first failed Delete of the case: the caches were right before it, so the cached-node model
+			// (Model/Mpt/Cache.lean) predicts what StateRoot() answers now — from the caches the nodes above
+			// the failing one kept: one root line, then no more (see `stale`)
+			w.o.Count("lazy:root-after-failed-delete")
+			w.root()
+		}
+		w.stale = true
+	}
 }
 
 type change struct {
